@@ -118,6 +118,9 @@ pub struct WalWriter {
     entry_count: usize,
     bytes_written: u64,
     error_handler: Option<Arc<WalErrorHandler>>,
+    /// Set when a failed append could not be rolled back: partial frame bytes may still sit at
+    /// the tail of the file, so nothing may be appended behind them.
+    poisoned: bool,
 }
 
 impl WalWriter {
@@ -157,12 +160,14 @@ impl WalWriter {
             entry_count: 0,
             bytes_written: 4, // Magic header
             error_handler,
+            poisoned: false,
         })
     }
 
     /// Append entry to WAL
     #[instrument(level = "trace", skip(self, entry), fields(doc_id = entry.doc_id, op = ?entry.op, embedding_dim = entry.embedding.len()))]
     pub fn append(&mut self, entry: &WalEntry) -> Result<()> {
+        self.ensure_not_poisoned()?;
         match &self.error_handler {
             Some(error_handler) => {
                 // Clone error handler arc to avoid borrow conflict
@@ -198,6 +203,8 @@ impl WalWriter {
         stable_offset: u64,
         stable_entry_count: usize,
     ) -> Result<()> {
+        // Also guards the retry loop: a retry must not append behind a failed rollback.
+        self.ensure_not_poisoned()?;
         match self.append_internal(entry) {
             Ok(()) => Ok(()),
             Err(write_err) => {
@@ -259,9 +266,25 @@ impl WalWriter {
         stable_offset: u64,
         stable_entry_count: usize,
     ) -> Result<()> {
-        self.rollback_to_offset(stable_offset)?;
+        if let Err(e) = self.rollback_to_offset(stable_offset) {
+            // The partial frame could not be removed. Appending behind it would make every
+            // later (acknowledged) frame unreadable, so stop accepting writes on this segment.
+            self.poisoned = true;
+            return Err(e);
+        }
         self.bytes_written = stable_offset;
         self.entry_count = stable_entry_count;
+        Ok(())
+    }
+
+    fn ensure_not_poisoned(&self) -> Result<()> {
+        if self.poisoned {
+            bail!(
+                "WAL segment {} is poisoned: a failed append could not be rolled back; \
+                 refusing further appends to this segment",
+                self.path.display()
+            );
+        }
         Ok(())
     }
 
@@ -295,6 +318,7 @@ impl WalWriter {
     /// Append batch of entries to WAL
     #[instrument(level = "trace", skip(self, entries), fields(count = entries.len()))]
     pub fn append_batch(&mut self, entries: &[WalEntry]) -> Result<()> {
+        self.ensure_not_poisoned()?;
         match &self.error_handler {
             Some(error_handler) => {
                 let handler = Arc::clone(error_handler);
@@ -319,6 +343,7 @@ impl WalWriter {
         stable_offset: u64,
         stable_entry_count: usize,
     ) -> Result<()> {
+        self.ensure_not_poisoned()?;
         match self.append_batch_internal(entries) {
             Ok(()) => Ok(()),
             Err(write_err) => {
